@@ -91,8 +91,23 @@ def apply_filter(xs, kernel, api, axis):
     if api == "smooth":
         tr.smooth(kernel)
         res = tr
+    elif api == "filter_seq":
+        res = filter_seq(tr, kernel, [axis])
     else:
-        res = filter_seq(tr, kernel, [axis] if api == "filter_seq" else ["x", "y", "z"])
+        # all three dimensions: an explicit list of the caller's (which the call may not edit), the module's constant, or the
+        # default argument - by turns; every fourth time a FLAT track (no elevation: z = 0 everywhere) went through the same
+        # form just before (what an earlier call did with the dimension list may not matter)
+        import tracklib.algo.filtering as flt
+        form = (len(xs) + int(sum(abs(v) for v in xs if v == v))) % 3
+        mine = ["x", "y", "z"]
+
+        def go(t):
+            return filter_seq(t, kernel, mine) if form == 0 else (filter_seq(t, kernel, flt.FILTER_XYZ) if form == 1 else filter_seq(t, kernel))
+        if (len(xs) + int(sum(2 * abs(v) for v in xs[:3] if v == v))) % 4 == 0:
+            go(tk.mk_track([float(k * k % 5) for k in range(len(xs))], [1.0] * len(xs), [0.0] * len(xs)))
+        res = go(tr)
+        if mine != ["x", "y", "z"]:
+            return [float("inf")] * len(xs)
     get = {"x": res.getX, "y": res.getY, "z": res.getZ}[axis]
     out = list(get())
     if api != "filter_seq":
